@@ -46,6 +46,7 @@ fn base(stats_each: bool) -> HistProp {
         nontrivial,
         quick_cases: 10000,
         thorough_cases: 200000,
+        pressure_cases: (4000, 60000),
         assumptions: vec!["FS-info count in generated volumes is exact or unknown (a wrong stored count is documented to be returned as is)", "documented preconditions of DESIGN 4.3"],
     }
 }
@@ -148,6 +149,11 @@ pub fn run(tier: Tier, seed: u64) -> i32 {
     if !rep.failed() {
         let n = tier.pick(a.quick_cases, a.thorough_cases);
         rep.add(hist::random_block(&b, "random_stats_at_random_points", seed ^ 0x55, n / 2));
+    }
+    if !rep.failed() {
+        if let Some(blk) = hist::pressure_block(&a, seed, tier) {
+            rep.add(blk);
+        }
     }
     rep.finish()
 }
